@@ -165,6 +165,18 @@ func init() {
 	I[vzPkg+".IteTime"] = func(p *Path, a []Value, _ *ssa.CallCommon) Value {
 		return mergeValuesOrFork(p, termOf(a[0]), a[1], a[2])
 	}
+	I[vzPkg+".MapOrderNondetFor"] = func(p *Path, a []Value, _ *ssa.CallCommon) Value {
+		// the argument is an interface holding a map: only ranges over that map fork over orders
+		if iv, ok := a[0].(IfaceVal); ok {
+			if mv, ok := iv.v.(MapVal); ok && mv.m != nil {
+				if p.nondetMaps == nil {
+					p.nondetMaps = map[*MapObj]bool{}
+				}
+				p.nondetMaps[mv.m] = true
+			}
+		}
+		return nil
+	}
 	I[vzPkg+".MapOrderReps"] = func(p *Path, a []Value, _ *ssa.CallCommon) Value { return mkInt(1) }
 	I[vzPkg+".Thorough"] = func(p *Path, a []Value, _ *ssa.CallCommon) Value { return mkBool(p.eng.thorough) }
 	I[vzPkg+".Symbolic"] = func(p *Path, a []Value, _ *ssa.CallCommon) Value { return tTrue }
